@@ -169,6 +169,55 @@ func TestC13(t *testing.T) {
 			}
 		}
 	}
+	// ---- DeriveKey with the output buffer overlapping the salt buffer ----
+	// (in-place use, e.g. a ratchet state: out and salt are the same memory, or
+	// out is a part of the salt buffer). The salt's CONTENT at the time of the
+	// call is the input: the result must equal the one obtained with separate
+	// buffers.
+	{
+		saltSizes := []int{16, 32, 33, 48, 64}
+		for _, ssz := range saltSizes {
+			for variant := 0; variant < 2; variant++ { // two salt contents differing in every byte
+				content := make([]byte, ssz)
+				for i := range content {
+					content[i] = byte(i*7 + 1 + variant*101)
+				}
+				for _, n := range []int{1, 16, 32, ssz} {
+					if n > ssz {
+						continue
+					}
+					for _, where := range []string{"prefix", "tail"} {
+						for ki := range keys {
+							caseKey := fmt.Sprintf("DeriveKey/k%d/c=ab/salt%dB.v%d/out=%s[%d]-of-the-salt-buffer", ki, ssz, variant, where, n)
+							ref := make([]byte, n)
+							var refErr, gotErr error
+							var got []byte
+							p := enum.Try(func() {
+								refErr = peer.DeriveKey("ab", append([]byte{}, content...), keys[ki].Priv, ref)
+								buf := append([]byte{}, content...)
+								out := buf[:n]
+								if where == "tail" {
+									out = buf[ssz-n:]
+								}
+								gotErr = peer.DeriveKey("ab", buf, keys[ki].Priv, out)
+								got = append([]byte{}, out...)
+							})
+							switch {
+							case p != nil:
+								acc.Case("DeriveKey-overlap", caseKey, true, "panic")
+								run.Violation("panic/DeriveKey", fmt.Sprintf("DeriveKey panicked (%s): %v", caseKey, p), caseKey)
+							case (refErr == nil) != (gotErr == nil) || (refErr == nil && !bytes.Equal(ref, got)):
+								acc.Case("DeriveKey-overlap", caseKey, true, "differs")
+								run.Violation("nondeterministic/DeriveKey/output-overlaps-salt", fmt.Sprintf("same key, context and salt content, but the result differs when the output buffer is part of the salt buffer (%s): separate buffers %x.. err=%v, overlapping %x.. err=%v", caseKey, head(ref), refErr, head(got), gotErr), caseKey)
+							default:
+								acc.Case("DeriveKey-overlap", caseKey, true, "equal")
+							}
+						}
+					}
+				}
+			}
+		}
+	}
 	acc.Sample(map[string]any{"fn": "DeriveKey", "key_fixture": 0, "context": "", "salt": "nil", "out_len": 32})
 	acc.Sample(map[string]any{"fn": "DeriveKey", "key_fixture": 2, "context": "ab", "salt": "st", "out_len": 1000})
 
